@@ -31,6 +31,11 @@ class SeqSet(Sym):
   def __init__(self, seq): self.seq = seq
 
 
+class RepeatNone(object):
+  """[None] * n with symbolic n: becomes a sequence once the element shape is known (list.extend)."""
+  def __init__(self, n): self.n = n
+
+
 class SymComp(object):
   """A lazy generator expression over a SymIter: element and condition as functions of the index
   (evaluated in total/spec mode)."""
@@ -41,6 +46,9 @@ class SymComp(object):
 def as_iterable(interp, v, node=None):
   """-> python list (concrete length) or SymIter."""
   if isinstance(v, SymIter): return v
+  if isinstance(v, V.SOpt) and not interp.spec:
+    v = interp.narrow(v)
+    if v is None: interp.raise_(TypeError, "'NoneType' object is not iterable", node=node)
   if isinstance(v, SSeq):
     return SymIter(v.length, lambda ip, k, v=v: v.at(ip.int_term(k)), v.elem)
   if isinstance(v, (list, tuple)): return list(v)
@@ -689,6 +697,14 @@ def call_method(ip, base, name, args, kwargs, node=None):
       return base.append(_coerce_elem(ip, base, args[0])), None
     if name == "extend":
       other = args[0]
+      if isinstance(other, RepeatNone):
+        if not isinstance(base.elem, V.Opt): ip.unsupported("[None] * n into a list of %r" % (base.elem,), node)
+        rep = ip.ctx.fresh(V.Seq(base.elem), "rep")
+        n = ip.int_term(other.n)
+        i = z3.Int("rp?%d" % ip._qid())
+        ip.ctx.assume(rep.length == z3.If(n > 0, n, 0))
+        ip.ctx.assume(z3.ForAll([i], z3.Implies(z3.And(i >= 0, i < rep.length), rep.at(i).isnone)))
+        other = rep
       if isinstance(other, (list, tuple)) and len(other) <= 8:
         out = base
         for x in other: out = out.append(x)
